@@ -44,7 +44,9 @@ class RtExplorer:
         self.cap = cap
         self.eff = effects.Effects(ctx.prog)
         self.nclk = 0
-        sums = {"ovni_clock_now": self._s_clock, "write_evbuf": self._s_wev}
+        # the flush is observed at the libc boundary (write), whose signature cannot change under a refactor of
+        # libovni's own static helpers; that the write loop is complete is R1.3 / R10.3
+        sums = {"ovni_clock_now": self._s_clock, "write": self._s_write}
         sums.update(summaries or {})
         self.ex = absint.Explorer(self.prog, effects=self.eff,
                                   inline=lambda n, d: d.file == OV and n not in sums,
@@ -60,8 +62,9 @@ class RtExplorer:
             cons = (((("clk%d" % (self.nclk - 1), 1), ("clk%d" % self.nclk, -1)), 0),)
         return [(v, {}, cons)]
 
-    def _s_wev(self, ex, st, args, f, e):
-        return [(TOP, {})]
+    def _s_write(self, ex, st, args, f, e):
+        # everything asked for is written at once
+        return [(args[2] if len(args) > 2 else TOP, {})]
 
     def _on_call(self, ex, st, f, e, cal, args):
         if cal in MEMCPY and len(args) >= 3:
@@ -82,8 +85,8 @@ class RtExplorer:
             st.events = st.events + (("note", "memcpy", dict(fn=f.name, line=f.lineof(e), dest=args[0], src=src,
                                                               n=args[2], cons=st.cons, ev=info,
                                                               evlen=st.store.get(EVLEN, TOP))),)
-        elif cal == "write_evbuf":
-            st.events = st.events + (("note", "flush", dict(fn=f.name, line=f.lineof(e), buf=args[0], size=args[1],
+        elif cal == "write" and len(args) >= 3:
+            st.events = st.events + (("note", "flush", dict(fn=f.name, line=f.lineof(e), fd=args[0], buf=args[1], size=args[2],
                                                              cons=st.cons, evlen=st.store.get(EVLEN, TOP))),)
 
     def base_store(self, evlen=None, ready=1):
